@@ -14,10 +14,25 @@ package common
 //@ -- by AddTransaction, References is replaced as a whole).
 //@ uninterp SnapSrc(s *Snapshot) mathint
 //@ uninterp SnapPH(src mathint, node crypto.Hash, round mathint, ts mathint, ntx mathint) crypto.Hash
-//@ assume func (s *Snapshot) PayloadHash
+//@ -- C07 (zz_contracts_c07b_verif.go has the specification functions): the contract is now VERIFIED against the body, except for the
+//@ -- `assumes [deterministic]` clause, which stays the assumption described above (SnapPH is uninterpreted; C19/C35 rely on it).
+//@ -- [payload]: the hash is Blake3 of a byte string that is a function of exactly Version, NodeId, RoundNumber, References (the two
+//@ -- hashes it points to), Transactions (the hashes in the slice) and Timestamp in the CURRENT heap -- never of Hash, Signature or any
+//@ -- topology. [canonical]: versionedPayload sorts s.Transactions IN PLACE (the copy it encodes shares the backing array), so
+//@ -- `modifies nothing` holds only for transactions that are already in canonical order: true of every decoded snapshot
+//@ -- (DecodeSnapshotWithTopo [order]) and of every snapshot that was hashed before ((*Snapshot).versionedPayload [sorted]); the first
+//@ -- hash of a locally built multi-transaction snapshot (kernel/cosi.go) is covered by the contract of versionedPayload instead
+//@ -- (PayloadHash is Blake3Hash of its result). Callers outside C07 take [canonical] on trust: `trustpre PayloadHash[canonical]`.
+//@ -- maypanic: the encoder rejects malformed snapshots (version, count, round-0 shape, duplicates) by panic.
+//@ func (s *Snapshot) PayloadHash
+//@   property C07
 //@   requires s != nil && s.Version == SnapshotVersionCommonEncoding
+//@   requires [canonical] TxsCanonical(s.Transactions)
+//@   maypanic
 //@   modifies nothing
-//@   ensures [deterministic] result == SnapPH(SnapSrc(s), s.NodeId, s.RoundNumber, s.Timestamp, len(s.Transactions))
+//@   ensures [payload] result == crypto.Blake3Of(SnapPayloadBytes(s.Version, s.NodeId, s.RoundNumber, s.References, s.Transactions, s.Timestamp))
+//@   ensures [wf] 1 <= len(s.Transactions) && len(s.Transactions) <= SnapshotTransactionsMaximum && (s.RoundNumber == 0 ==> len(s.Transactions) == 1)
+//@   assumes [deterministic] result == SnapPH(SnapSrc(s), s.NodeId, s.RoundNumber, s.Timestamp, len(s.Transactions))
 
 // ───────────── round.go (C19, C18) ─────────────
 
